@@ -1,4 +1,5 @@
 """C07 - checked packet views never panic on arbitrary bytes (structural clauses)."""
+import re
 from ..framework import rule
 from ..core import *
 from ..lib import *
@@ -1020,3 +1021,529 @@ def r07_11(ctx):
                         ctx.ok((adt, nm, gs), sample=dict(view=short, accessor=nm, flag=gs, needs=hi, check_len='requires it where the flag holds'))
     if n == 0:
         ctx.ok(('no flag-conditional accessor in this configuration',), sample=dict(note='instances exist with feature proto-rpl (thorough tier, cfg B)'))
+
+
+def _expand_helpers(F, node, adt, depth=0):
+    """inline the small free helper functions of the wire module (field::X(len) range builders ...) but keep the
+    getters of the view itself as atoms"""
+    if not isinstance(node, tuple) or not node or depth > 5:
+        return node
+    k = node[0]
+    if k == 'call':
+        args = tuple(_expand_helpers(F, a, adt, depth) for a in node[2])
+        n2 = ('call', node[1], args)
+        cb = F.bodies.get(node[1])
+        if cb is not None and len(cb.blocks) <= 60 and cb.meta.get('impl_self') != adt and (cb.file or '').startswith('src/wire/') \
+                and cb.kind in ('method', 'fn'):
+            inl = inline_call(F, n2)
+            if inl is not None:
+                return _expand_helpers(F, inl, adt, depth + 1)
+        return n2
+    if k == 'bin':
+        return ('bin', node[1], _expand_helpers(F, node[2], adt, depth), _expand_helpers(F, node[3], adt, depth))
+    if k == 'cast':
+        return ('cast', _expand_helpers(F, node[1], adt, depth), node[2])
+    if k == 'proj':
+        return subst(('proj', _expand_helpers(F, node[1], adt, depth), node[2]), {})
+    if k == 'agg':
+        return (node[0], node[1], tuple(_expand_helpers(F, a, adt, depth) for a in node[2])) + tuple(node[3:])
+    if k == 'after':
+        return _expand_helpers(F, node[1], adt, depth)
+    return node
+
+
+def _raw_len_bounds(F, adt, cl):
+    """expressions X with `len >= X` on the Ok paths of check_len, unexpanded; over all paths and per partition"""
+    out = []
+    sets = [ok_facts(F, cl)]
+    for pk, cut in variant_partitions(F, cl, adt).items():
+        sets.append(ok_facts(F, cl, restrict_edges=frozenset(cut)))
+    for facts in sets:
+        for f in facts:
+            if f[0] != 'rel':
+                continue
+            _, op, a, b = f
+            if is_len_of_buffer(a, adt):
+                x = b
+            elif is_len_of_buffer(b, adt):
+                x, op = a, FLIP[op]
+            else:
+                continue
+            if op in ('Ge', 'Gt', 'Eq') and x not in out:
+                out.append(x)
+    return out
+
+
+def _canon_atom(n):
+    """atoms are compared modulo reference / dereference / cast wrappers and empty projections"""
+    if not isinstance(n, tuple) or not n:
+        return n
+    n = strip(n)
+    k = n[0]
+    if k in ('ref', 'deref', 'after') and len(n) >= 2:
+        return _canon_atom(n[1])
+    if k == 'cast':
+        return _canon_atom(n[1])
+    if k == 'proj':
+        path = tuple(p for p in n[2] if p and p[0] != '*')
+        inner = _canon_atom(n[1])
+        return ('proj', inner, path) if path else inner
+    if k == 'field':
+        return ('field', _canon_atom(n[1]), tuple(p for p in n[2] if p and p[0] != '*')) + tuple(n[3:])
+    if k == 'call':
+        if n[1].rsplit('::', 1)[-1] in ('as_ref', 'as_mut', 'deref', 'borrow') and len(n[2]) == 1:
+            return _canon_atom(n[2][0])
+        return ('call', n[1], tuple(_canon_atom(a) for a in n[2]))
+    if k == 'bin':
+        return ('bin', n[1], _canon_atom(n[2]), _canon_atom(n[3]))
+    if k == 'un':
+        return ('un', n[1], _canon_atom(n[2]))
+    if k == 'phi':
+        return ('phi', tuple(sorted((_canon_atom(a) for a in n[1]), key=repr)))
+    return n
+
+
+def _var_atoms(l):
+    out = {}
+    for k, v in l.items():
+        c = _canon_atom(k)
+        out[c] = out.get(c, 0) + v
+    return {k: v for k, v in out.items() if v > 0}
+
+
+@rule('R07.12', ['C07', 'C03'], floor=40, clause='where an accessor reaches a position that depends on length fields of the packet, every variable term of that position (each size getter, each length byte) also appears, with at least the same weight, in a length that check_len compared with the buffer')
+def r07_12(ctx):
+    """Term-wise agreement between an accessor's reach and check_len's bound, as linear forms over the view's size
+    getters (helpers inlined) or, failing that, over the fully expanded expressions.  A term the accessor adds but
+    check_len's sum lacks (a skipped optional octet, a dropped size) is a read beyond what was validated.  Constants are
+    not compared here (R07.1 compares constant reaches)."""
+    F = ctx.F
+    views = wire_views(F)
+    n = 0
+    for adt, cl in sorted(views.items()):
+        if adt in UNDECIDED_VIEWS:
+            continue
+        K, kv, vb = guarantees(ctx, adt, cl)
+        kmax = max([K] + list(kv.values()))
+        rb = _raw_len_bounds(F, adt, cl)
+        short = adt.split('::', 1)[1]
+        forms = None
+        for b in read_accessors(F, adt):
+            nm = b.key.rsplit('::', 1)[-1]
+            for acc in buffer_accesses(F, b, adt):
+                if acc['need'] is None:
+                    continue
+                ne = expand(F, acc['need'], adt)
+                hi = interval(ne, adt)[1]
+                if hi is not None and hi <= kmax:
+                    continue
+                if any(l.endswith('::position') for l in leafs(acc['need']) if l.startswith('C:')):
+                    continue
+                bs = byte_sources(F, ne, adt)
+                if not (bs and bs <= vb):
+                    continue        # R07.1 reports it
+                if forms is None:
+                    forms = [(_var_atoms(lin(simplify(_expand_helpers(F, x, adt)))[0]), _var_atoms(lin(simplify(expand(F, x, adt)))[0])) for x in rb]
+                n1 = _var_atoms(lin(simplify(_expand_helpers(F, acc['need'], adt)))[0])
+                n2 = _var_atoms(lin(simplify(ne))[0])
+                ok = any(all(f1.get(k, 0) >= v for k, v in n1.items()) or all(f2.get(k, 0) >= v for k, v in n2.items()) for f1, f2 in forms)
+                n += 1
+                sig = show(acc['need'])[:60]
+                if ok:
+                    ctx.ok((adt, nm, sig), sample=dict(view=short, accessor=nm, reach_terms=sorted(show(k)[:40] for k in n1)[:6], covered_by='check_len bound'))
+                else:
+                    best = None
+                    for f1, f2 in forms:
+                        miss = [k for k, v in n1.items() if f1.get(k, 0) < v]
+                        if best is None or len(miss) < len(best):
+                            best = miss
+                    ctx.bad(f"{adt}|{nm}|term-not-validated", f"{short}::{nm} reaches a position that includes {[show(k)[:50] for k in (best or [])][:3]}, "
+                            "which no length that check_len compares with the buffer includes: the accessor can read past a buffer that check_len accepted",
+                            body=b, bb=acc['bb'], line=acc['line'])
+    ctx.need(n >= 40, f"length-dependent accesses compared term-wise (found {n})")
+
+
+def _slice_static_len(F, b, n, depth=0):
+    """lower bound of the length of the slice / array denoted by origin n that follows from types and constant ranges alone"""
+    n = strip(n)
+    if depth > 8:
+        return None
+    while n[0] in ('ref', 'deref', 'after') and len(n) >= 2:
+        n = strip(n[1])
+    if n[0] == 'call' and len(n[2]) == 2 and n[1].rsplit('::', 1)[-1] in ('index', 'index_mut'):
+        rb = range_bounds(F, n[2][1])
+        if rb:
+            lo = const_of(rb[1]) if len(rb) > 1 and rb[1] is not None else 0
+            hi = const_of(rb[2]) if len(rb) > 2 and rb[2] is not None else None
+            if rb[0] in ('Range', 'RangeTo') and hi is not None and lo is not None:
+                return hi - lo
+            if rb[0] == 'RangeFrom' and lo is not None:
+                base = _slice_static_len(F, b, n[2][0], depth + 1)
+                return None if base is None else base - lo
+        return None
+    ty = _origin_type(F, b, n)
+    if ty:
+        m = re.search(r'\[[^\[\];]+; (\d+)\]\s*$', ty.replace('&', '').replace('mut ', '').strip())
+        if m:
+            return int(m.group(1))
+    return None
+
+
+def _origin_type(F, b, n):
+    n = strip(n)
+    if n[0] == 'arg' and n[1] < len(b.locals):
+        return b.locals[n[1]]['ty']
+    if n[0] in ('field', 'proj') and n[2]:
+        last = [p for p in n[2] if p and p[0] == 'f']
+        if last:
+            p = last[-1]
+            a = F.adts.get(p[2]) if len(p) > 2 else None
+            if a:
+                for v in a['variants']:
+                    if len(p) > 3 and p[3] not in ('-', v['name']):
+                        continue
+                    for i, f in enumerate(v['fields']):
+                        if f['name'] == p[1] or str(i) == p[1]:
+                            return f['ty']
+    return None
+
+
+@rule('R07.13', ['C07', 'C03'], floor=15, clause='in the wire parsers a slice taken out of a packet (an option body, a name, an address) is cut or indexed at a constant position only when its length is known to reach it: by type, by a dominating length test, by a successful first()/get(), or because it was itself cut with a validated constant width')
+def r07_13(ctx):
+    F = ctx.F
+    og = F.origin
+    views = wire_views(F)
+    n = 0
+    for k, b in sorted(F.bodies.items()):
+        if not (b.file or '').startswith('src/wire/') or '::test' in k or b.meta.get('impl_self') in views:
+            continue
+        if k.rsplit('::', 1)[-1] in ('fmt', 'pretty_print') or 'pretty_print' in k:
+            continue
+        base = k.split('::{closure', 1)[0].rsplit('::', 1)[-1]
+        if base.startswith('emit') or base.startswith('fill_') or base.startswith('set_'):
+            continue            # writers: the buffer length is the caller's contract (C06), not received data
+        for bi, bl in enumerate(b.blocks):
+            if bl['cl']:
+                continue
+            t = bl['t']
+            sl = None
+            if t[0] == 'call':
+                nm = b.callee_name(t[1]) or ''
+                if nm.rsplit('::', 1)[-1] == 'index' and 'for [T]>' in nm and len(t[2]) == 2:
+                    rb = range_bounds(F, og.operand(b, t[2][1], bi, len(bl['s'])))
+                    if not rb:
+                        continue
+                    ends = [const_of(x) for x in rb[1:] if x is not None]
+                    if any(e is None for e in ends) or not ends:
+                        continue        # variable cuts: R07.8
+                    mx = max(ends)
+                    sl = og.operand(b, t[2][0], bi, len(bl['s']))
+            elif t[0] == 'assert' and t[3].get('k') == 'bounds':
+                ix = const_of(og.operand(b, t[3]['index'], bi, len(bl['s'])))
+                ln = strip(og.operand(b, t[3]['len'], bi, len(bl['s'])))
+                if ix is None or ln[0] != 'len':
+                    continue
+                mx, sl = ix + 1, ln[1]
+            if sl is None or mx <= 0:
+                continue
+            S = _canon_atom(sl)
+            if _root_is_view_buffer(S, views) or not _packet_rooted(F, b, S, views):
+                continue
+            n += 1
+            short = k.split('wire::', 1)[-1]
+            st = _slice_static_len(F, b, sl)
+            if st is None:
+                st = _variant_payload_len(F, b, sl)
+            if st is not None and st >= mx:
+                ctx.ok((k, bi, 'static'), sample=dict(fn=short, cut=mx, length_known_from='type / constant-width cut'))
+                continue
+
+            def pred(f, S=S, mx=mx):
+                if f[0] == 'rel':
+                    for a, c, op in ((f[2], f[3], f[1]), (f[3], f[2], FLIP[f[1]])):
+                        a = strip(a)
+                        inner = a[1] if a[0] == 'len' else (a[2][0] if a[0] == 'call' and a[1].endswith('::len') and a[2] else None)
+                        cc = const_of(c)
+                        if inner is None or cc is None or _canon_atom(inner) != S:
+                            continue
+                        if (op in ('Ge', 'Eq') and cc >= mx) or (op == 'Gt' and cc + 1 >= mx):
+                            return True
+                    return False
+                if f[0] == 'is' and f[2] in ('Some', 'Continue', 'Ok'):
+                    return _witness(f[1], S, mx)
+                if f[0] == 'bool' and f[2] is False:
+                    c = strip(f[1])
+                    return mx <= 1 and c[0] == 'call' and c[1].endswith('::is_empty') and c[2] and _canon_atom(c[2][0]) == S
+                return False
+            bad = unguarded(F, b, [bi], pred)
+            if not bad:
+                ctx.ok((k, bi, 'guarded'), sample=dict(fn=short, cut=mx, guard='length test / first() / get() on the same slice'))
+                continue
+            # loop-carried cursor slices: match the guard on the user local itself (origin trees are unrolled to a bounded depth)
+            R = _root_local(b, t[2][0]) if t[0] == 'call' else None
+            if R is not None and _dominated_with_defs(b, bi, R, _place_guard_edges(F, b, R, mx)):
+                ctx.ok((k, bi, 'cursor'), sample=dict(fn=short, cut=mx, guard='first()/get() of the same cursor succeeded since its last assignment'))
+                continue
+            # the slice is itself `get(a..b)` / `[a..b]` of something, with b tested against a constant
+            w = _cut_width(F, b, sl, bi)
+            if w is not None and w >= mx:
+                ctx.ok((k, bi, 'cut-width'), sample=dict(fn=short, cut=mx, slice_width=w))
+                continue
+            ctx.bad(f"{short}|const-cut|{mx}", f"{short} cuts / indexes a slice taken from the packet at constant position {mx} without anything establishing that the slice "
+                    f"is that long ({show(strip(sl))[:60]}): a crafted option / field length makes the parser panic", body=b, bb=bi)
+    ctx.need(n >= 15, f"constant cuts of packet sub-slices in the wire parsers (found {n})")
+
+
+def _root_is_view_buffer(S, views):
+    n = S
+    while isinstance(n, tuple) and n and n[0] in ('proj', 'field', 'call') :
+        if n[0] == 'field' and n[2] and n[2][-1][0] == 'f' and n[2][-1][1] == 'buffer' and len(n[2][-1]) > 2 and n[2][-1][2] in views:
+            return True
+        if n[0] == 'call':
+            if not n[2]:
+                return False
+            n = n[2][0]
+        else:
+            n = n[1]
+    return False
+
+
+def _witness(node, S, mx):
+    """node contains first(S) / get(S, ..k) / split_first(S) ... whose success implies len(S) >= mx"""
+    stack = [node]
+    while stack:
+        x = stack.pop()
+        if not isinstance(x, tuple) or not x:
+            continue
+        x = strip(x)
+        if x[0] == 'call' and x[2]:
+            last = x[1].rsplit('::', 1)[-1]
+            if _canon_atom(x[2][0]) == S:
+                if last in ('first', 'last', 'split_first', 'split_last') and mx <= 1:
+                    return True
+                if last in ('get', 'split_at_checked', 'first_chunk', 'split_first_chunk') and len(x[2]) == 2:
+                    return True if _get_reach(x[2][1]) is not None and _get_reach(x[2][1]) >= mx else False
+            stack.extend(x[2])
+        else:
+            stack.extend(y for y in x[1:] if isinstance(y, tuple))
+    return False
+
+
+def _get_reach(arg):
+    a = strip(arg)
+    c = const_of(a)
+    if c is not None:
+        return c + 1
+    if a[0] == 'agg' and len(a) > 2 and a[2]:
+        e = const_of(a[2][-1])
+        return e
+    return None
+
+
+def _cut_width(F, b, sl, bi):
+    """sl = get(X, a..B)@Some / index(X, a..B) with constant a and B tested `== c` / `>= c` on a dominating edge -> c - a"""
+    n = strip(sl)
+    while n[0] in ('ref', 'deref', 'after', 'proj', 'field') and len(n) >= 2 and not (n[0] == 'call'):
+        n = strip(n[1])
+    stack = [n]
+    rng = None
+    while stack and rng is None:
+        x = stack.pop()
+        if not isinstance(x, tuple) or not x:
+            continue
+        x = strip(x)
+        if x[0] == 'call' and len(x[2]) == 2 and x[1].rsplit('::', 1)[-1] in ('get', 'index'):
+            rb = range_bounds(F, x[2][1])
+            if rb and rb[0] == 'Range':
+                rng = rb
+                break
+        if x[0] == 'call':
+            stack.extend(x[2][:1])
+        else:
+            stack.extend(y for y in x[1:2] if isinstance(y, tuple))
+    if rng is None:
+        return None
+    a = const_of(rng[1])
+    if a is None:
+        return None
+    hi = _canon_atom(rng[2])
+    cands = set()
+    for bj, bl in enumerate(b.blocks):
+        if bl['cl'] or bl['t'][0] != 'switch':
+            continue
+        for tb, lab, f in cond_facts(F, b, bj):
+            if f[0] == 'rel':
+                for x, c in ((f[2], f[3]), (f[3], f[2])):
+                    cc = const_of(c)
+                    if cc is not None and _canon_atom(x) == hi:
+                        cands.add(cc)
+    for c0 in sorted(cands, reverse=True):
+        def pred(f, c0=c0):
+            if f[0] != 'rel':
+                return False
+            for x, c, op in ((f[2], f[3], f[1]), (f[3], f[2], FLIP[f[1]])):
+                cc = const_of(c)
+                if cc is not None and _canon_atom(x) == hi and ((op in ('Ge', 'Eq') and cc >= c0) or (op == 'Gt' and cc + 1 >= c0)):
+                    return True
+            return False
+        if not unguarded(F, b, [bi], pred):
+            return c0 - a
+    return None
+
+
+def _root_local(b, op, depth=0):
+    """user local behind an operand, following `tmp = &(*x)` / `tmp = copy x` temporaries that have a single definition"""
+    if op[0] not in ('c', 'm') or depth > 6:
+        return None
+    l, path = op[1]
+    if any(p != '*' and p[0] != '*' for p in path if p):
+        return None
+    if b.locals[l].get('name'):
+        return l
+    ds = [d for d in b._all_defs().get(l, []) if d[3] == []]
+    if len(ds) != 1 or ds[0][2] != 'a':
+        return None
+    rv = ds[0][4]
+    if rv[0] == 'ref' and all(p == '*' for p in rv[2][1]):
+        return _root_local(b, ['c', [rv[2][0], []]], depth + 1)
+    if rv[0] == 'use':
+        return _root_local(b, rv[1], depth + 1)
+    return None
+
+
+def _place_guard_edges(F, b, R, mx):
+    """edges on which `first()/get(..k)/split_first()` of user local R succeeded (Option -> ok_or -> ? chains followed)"""
+    out = []
+    for bi, bl in enumerate(b.blocks):
+        t = bl['t']
+        if bl['cl'] or t[0] != 'call' or not t[2]:
+            continue
+        last = (b.callee_name(t[1]) or '').rsplit('::', 1)[-1]
+        if last in ('first', 'last', 'split_first', 'split_last'):
+            reach = 1
+        elif last in ('get', 'split_at_checked', 'first_chunk') and len(t[2]) == 2:
+            reach = _get_reach(F.origin.operand(b, t[2][1], bi, len(bl['s'])))
+        else:
+            continue
+        if reach is None or reach < mx or _root_local(b, t[2][0]) != R:
+            continue
+        # follow the result through wrapper calls to the switch that tests it
+        dest, cur = t[3][0], t[4]
+        for _ in range(5):
+            if cur is None:
+                break
+            tb = b.blocks[cur]['t']
+            if tb[0] == 'call' and tb[2] and tb[2][0][0] in ('c', 'm') and tb[2][0][1][0] == dest and len(b.blocks[cur]['s']) <= 2:
+                dest, cur = tb[3][0], tb[4]
+                continue
+            if tb[0] == 'switch':
+                for tgt, lab, f in cond_facts(F, b, cur):
+                    if f[0] == 'is' and f[2] in ('Some', 'Continue', 'Ok'):
+                        out.append((cur, tgt, lab))
+            break
+    return out
+
+
+def _dominated_with_defs(b, site, R, edges):
+    """site is reachable neither from the entry nor from behind any redefinition of local R without passing one of `edges`"""
+    if not edges:
+        return False
+    starts = [0]
+    for bi, bl in enumerate(b.blocks):
+        if bl['cl']:
+            continue
+        if any(s[0] == 'a' and s[1] == [R, []] for s in bl['s']):
+            # a redefinition inside a block: everything after it in this block and its successors
+            starts.append(('after', bi))
+        if bl['t'][0] == 'call' and bl['t'][3] == [R, []] and bl['t'][4] is not None:
+            starts.append(bl['t'][4])
+    cut = set(edges)
+    for s in starts:
+        if isinstance(s, tuple):
+            bi = s[1]
+            if bi == site:
+                # the site's own block redefines R before its terminator uses it?  the terminator operand is computed
+                # from R's value *before* a later assignment only if the assignment follows; be conservative
+                seq = b.blocks[bi]['s']
+                continue
+            seen = set()
+            for tb, lab in b.succ_edges(bi):
+                if (bi, tb, lab) not in cut:
+                    seen |= set(b.reachable(start=tb, cut_edges=cut))
+            if site in seen:
+                return False
+        elif site in b.reachable(start=s, cut_edges=cut):
+            return False
+    return True
+
+
+def _packet_rooted(F, b, S, views):
+    """the slice is (part of) a shared-slice parameter, of a value carried by a parameter, or of a view accessor's result"""
+    n = S
+    for _ in range(12):
+        if not isinstance(n, tuple) or not n:
+            return False
+        if n[0] == 'arg':
+            ty = b.locals[n[1]]['ty'] if n[1] < len(b.locals) else ''
+            return not ty.startswith('&mut') and '[u8; ' not in ty.split('<')[0]
+        if n[0] == 'phi':
+            return any(_packet_rooted(F, b, a, views) for a in n[1])
+        if n[0] == 'call':
+            cb = F.bodies.get(n[1])
+            if cb is not None and cb.meta.get('impl_self') in views:
+                return True
+            last = n[1].rsplit('::', 1)[-1]
+            if last in ('index', 'get', 'branch', 'ok_or', 'unwrap', 'split_at', 'split_first', 'first', 'as_ref', 'deref', 'into_iter', 'next') and n[2]:
+                n = n[2][0]
+                continue
+            return False
+        if n[0] in ('proj', 'field', 'ref', 'deref', 'after', 'cast'):
+            n = n[1]
+            continue
+        return False
+    return False
+
+
+def _variant_payload_len(F, b, sl):
+    """sl is the payload slice of an enum variant (possibly cut further by constant ranges): the smallest statically known
+    length over every place in the crate that constructs that variant"""
+    n = strip(sl)
+    off = 0
+    for _ in range(6):
+        while n[0] in ('ref', 'deref', 'after') and len(n) >= 2:
+            n = strip(n[1])
+        if n[0] == 'call' and len(n[2]) == 2 and n[1].rsplit('::', 1)[-1] == 'index':
+            rb = range_bounds(F, n[2][1])
+            if rb and rb[0] == 'RangeFrom' and const_of(rb[1]) is not None:
+                off += const_of(rb[1])
+                n = strip(n[2][0])
+                continue
+            return None
+        break
+    if n[0] not in ('proj', 'field') or not n[2]:
+        return None
+    fs = [p for p in n[2] if p and p[0] == 'f' and len(p) > 3 and p[3] not in ('-', None)]
+    if not fs or not str(fs[-1][1]).isdigit():
+        return None
+    adt, var, fidx = fs[-1][2], fs[-1][3], int(fs[-1][1])
+    if adt.startswith('std::') or adt.startswith('core::'):
+        return None
+    best = None
+    seen = 0
+    for k2, b2 in F.bodies.items():
+        if '::test' in k2:
+            continue
+        for bi, bl in enumerate(b2.blocks):
+            if bl['cl']:
+                continue
+            for si, s_ in enumerate(bl['s']):
+                if s_[0] == 'a' and s_[2][0] == 'agg' and s_[2][1].get('k') == 'adt' and s_[2][1].get('adt') == adt and s_[2][1].get('variant') == var:
+                    ops = s_[2][2]
+                    if fidx >= len(ops):
+                        return None
+                    seen += 1
+                    ln = _slice_static_len(F, b2, F.origin.operand(b2, ops[fidx], bi, si))
+                    if ln is None:
+                        return None
+                    best = ln if best is None else min(best, ln)
+    return None if best is None or not seen else best - off
